@@ -125,6 +125,16 @@ def instantiate_type(
             scoped_instantiation_name(instantiation
                                       ) if part == scoped_template else part
             for part in ctype.typename.qualified_name().split("::"))
+        if isinstance(ctype, parser.TemplatedType):
+            # Keep the template parameters as they are written (const, &, *)
+            return parser.TemplatedType(
+                typename=instantiation,
+                template_params=ctype.template_params,
+                is_const=ctype.is_const,
+                is_shared_ptr=ctype.is_shared_ptr,
+                is_ptr=ctype.is_ptr,
+                is_ref=ctype.is_ref,
+            )
         instantiation.instantiations = ctype.typename.instantiations
         return parser.Type(
             typename=instantiation,
